@@ -624,11 +624,11 @@ ADDENDA = {
            'the count update (F-PAIR.N), list cursors only advance (F-CURSOR), sibling defaults agree (D-DEFAULT).',
     'C02': 'Also decided: the edge-sequence constructors and the conversion from a directed graph insert unforced (F-XPORT), a '
            're-export names what the direct base offers (D-ENC), no label store between list insertion and count (F-PAIR.N; '
-           'defect D16 of the pinned tree).',
+           'defect D16 of the pinned tree). No 64-bit mask is built by shifting an int (D-SHIFT).',
     'C03': 'The label accessor is examined for every witness label kind, including a user class with an explicit constructor '
-           'and an empty user class (a no-op accessor selected for a real label type is a violation). hasEdge(i, j, label) compares with the label type\'s own operator== (F-HASEDGE).',
-    'C05': 'Also decided: setEdgeWeight stores the weight it is given whatever weight was stored before (no branch on the stored value guards the overwrite).',
-    'C06': 'Also decided: hand-written copy / move members transfer every data member (D-VALSEM).',
+           'and an empty user class (a no-op accessor selected for a real label type is a violation). hasEdge(i, j, label) compares with the label type\'s own operator== (F-HASEDGE). Base-class setters are not re-exported around the wrapper that orders the pair (D-ENC).',
+    'C05': 'Also decided: setEdgeWeight stores the weight it is given whatever weight was stored before (no branch on the stored value guards the overwrite). The running totals of the two weighted classes have one type (D-SIB); sums are accumulated in a type as wide as the total (F-ACCW).',
+    'C06': 'Also decided: hand-written copy / move members transfer every data member (D-VALSEM). A comparison loop does not walk two lists in lockstep and stop with the shorter one.',
     'C07': 'Also decided: the label of a removed edge is erased (F-PAIR.L - the accessor decides existence from the store), no '
            'function that can throw is declared noexcept (D-NOEXCEPT), the range sanitizer is not applied to an invented index '
            '(F-VAL.inv). No message is built by adding an integer to a string literal (D-STRPLUS).',
@@ -638,26 +638,26 @@ ADDENDA = {
            'members are member-wise (D-VALSEM).',
     'C10': 'Also decided: every insertion into the subgraph hands over the label, the remap counter advances by one per element, '
            'hand-written special members of the returned graph are member-wise (D-VALSEM).',
-    'C11': 'Also decided: the distances start at the documented sentinel, wrappers forward their vertex arguments in order (F-FWD). No result is returned before the source has its distance; no neighbour is skipped on loop-carried state.',
+    'C11': 'Also decided: the distances start at the documented sentinel, wrappers forward their vertex arguments in order (F-FWD). No result is returned before the source has its distance; no neighbour is skipped on loop-carried state. The call graph of the library is acyclic (D-REC).',
     'C12': 'Also decided: the entry removed from the queue is the vertex scanned (F-HEAP.top), the worklist initially holds the '
            'source only, an associative container with unique keys is not used as the queue. No neighbour is skipped on a condition that depends on earlier iterations (scan-all).',
     'C13': 'Also decided: the line loop ends on the failure of std::getline (not on eof), writers that walk the neighbour lists '
-           'keep every edge of a directed graph. std::getline reads from the stream itself (no std::ws before the comment test).',
+           'keep every edge of a directed graph. std::getline reads from the stream itself (no std::ws before the comment test). Callables handed to the loaders are taken by value (a shared default mapper would keep its name table between calls).',
     'C14': 'Also decided: reads are checked and an end-of-file look-ahead is compared as an int (F-IO.READ), the stream is opened '
            'on the caller\'s file name itself and on every path (F-IO.OPEN), writers that walk the neighbour lists write each edge '
            'once per storage family. The alias VertexIndex is a 32-bit unsigned integer on this target (F-IO.WIDTH).',
     'C15': 'Also decided: no function whose exception the loaders rely on is noexcept (D-NOEXCEPT), computed subscripts of '
-           'fixed-size arrays are bounded (F-IO.TOK). Exception classes thrown derive publicly from std::exception.',
+           'fixed-size arrays are bounded (F-IO.TOK). Exception classes thrown derive publicly from std::exception. Text taken from the file is not matched with std::regex (stack use of the platform library).',
     'C16': 'Also decided: a force option is handed on to every insertion an operation performs (F-FWD; defect D17 of the pinned '
-           'tree), updates of the total written once after the arms of a branch are paired by path counting. Sums are accumulated in a type as wide as the counter they are applied to (F-ACCW).',
+           'tree), updates of the total written once after the arms of a branch are paired by path counting. Sums are accumulated in a type as wide as the counter they are applied to (F-ACCW). Vertex loops of the mutators are not left early (F-LOOP).',
     'C17': 'Also decided: a list is not mutated under a live cursor, directly or through a callee (F-CURSOR.live), results of '
            'max_element / min_element are dereferenced only on a non-empty range, every scalar member is initialised (D-INIT), '
-           'binary searches run on sorted ranges (F-SORTED), no signed arithmetic on converted unsigned values (F-SOVF). References obtained through std::min / std::max alias their arguments (F-TS); accumulator widths (F-ACCW); string literal + integer (D-STRPLUS).',
+           'binary searches run on sorted ranges (F-SORTED), no signed arithmetic on converted unsigned values (F-SOVF). References obtained through std::min / std::max alias their arguments (F-TS); accumulator widths (F-ACCW); string literal + integer (D-STRPLUS). No three-iterator std::equal / is_permutation / mismatch without a length test (F-RANGE2); acyclic call graph (D-REC); no int shift into a 64-bit mask (D-SHIFT).',
     'C18': 'Also decided: the library starts no thread, calls no function that replaces process-wide state (locale, terminate '
            'handler, environment) or uses hidden static storage (localtime ...), and the writers touch exactly the file they are '
            'given (F-IO.OPEN: the caller\'s name itself, no rename / remove). Callables handed to the file routines are taken by value.',
     'C19': 'Also decided: the priority queue puts the minimum on top (comparator of the heap algorithms, ordering of a '
-           'std::priority_queue), the source is marked before the loop, ties do not re-queue.',
+           'std::priority_queue), the source is marked before the loop, ties do not re-queue. The relaxation is entered through the strict improvement test only; acyclic call graph (D-REC).',
     'C20': 'Label kinds of the matrix: NoLabel, int, unsigned, double, char, std::string, an aggregate struct, a class with an '
            'explicit constructor with default arguments and a std::string member, an empty class.',
 }
